@@ -1,11 +1,177 @@
 /-
-  Proofs/C05_Unpack.lean — per-kind codec round trips and the two-pass `_read_dtype_list` induction.
+  Proofs/C05_Unpack.lean — the two-pass `_read_dtype_list` induction (over "pieces": dtype, bits, returned value)
+  and the per-kind read-back lemmas that make a packed token a good piece.
 -/
 import BitstringModel.Model.C05
 import BitstringModel.Proofs.Basic
 import BitstringModel.Proofs.C05
+import BitstringModel.Proofs.C05_Codec
+import BitstringModel.Props.C10
+import BitstringModel.Props.C10_Interleaved
+import Mathlib.Tactic.Ring
+import Mathlib.Tactic.Linarith
 
 namespace BM.C05
 open BM
+
+/-- one token's contribution to a round trip: its dtype, its bits, what unpack returns for it -/
+structure Piece where
+  d : DT
+  tb : Bits
+  out : Option Val
+
+def Piece.good (p : Piece) : Prop :=
+  if p.d.stretchy = true then
+    (p.tb.length % p.d.kind.mult = 0) ∧
+    ∃ d', getDtypeK p.d.kind (some ((p.tb.length / p.d.kind.mult : Nat) : Int)) = .ok d' ∧
+      ∀ pre post, readDT (pre ++ p.tb ++ post) d' pre.length = .ok (p.out, pre.length + p.tb.length)
+  else
+    (∀ pre post, readDT (pre ++ p.tb ++ post) p.d pre.length = .ok (p.out, pre.length + p.tb.length)) ∧
+    (p.d.kind.variable = false → p.d.bitlen = some (p.tb.length : Int))
+
+def flat (ps : List Piece) : Bits := (ps.map (·.tb)).flatten
+def outs (ps : List Piece) : List Val := ps.filterMap (·.out)
+def dts (ps : List Piece) : List DT := ps.map (·.d)
+
+theorem flat_cons (p : Piece) (ps : List Piece) : flat (p :: ps) = p.tb ++ flat ps := by simp [flat]
+def consOpt (v : Option Val) (vs : List Val) : List Val := match v with | some x => x :: vs | none => vs
+
+theorem outs_cons (p : Piece) (ps : List Piece) : outs (p :: ps) = consOpt p.out (outs ps) := by
+  cases h : p.out <;> simp [outs, consOpt, h]
+
+theorem pass2_cons_fixed (b : Bits) (after : Int) (d : DT) (ds : List DT) (pos pos' : Nat) (v : Option Val)
+    (hs : d.stretchy = false) (hr : readDT b d pos = .ok (v, pos')) :
+    pass2 b after (d :: ds) pos =
+      match pass2 b after ds pos' with
+      | .error e => .error e
+      | .ok (vs, p) => .ok (consOpt v vs, p) := by
+  rw [pass2.eq_def]
+  simp only [hs, Bool.false_eq_true, if_false, hr]
+  cases pass2 b after ds pos' with
+  | error e => rfl
+  | ok r => cases v <;> rfl
+
+/-- no length-less token: every piece is read in turn, whatever follows and whatever `after` is -/
+theorem pass2_fixed (ps : List Piece) (hg : ∀ p ∈ ps, p.good) (hs : ∀ p ∈ ps, p.d.stretchy = false)
+    (pre post : Bits) (after : Int) :
+    pass2 (pre ++ flat ps ++ post) after (dts ps) pre.length = .ok (outs ps, pre.length + (flat ps).length) := by
+  induction ps generalizing pre with
+  | nil => simp [flat, outs, dts, pass2]
+  | cons p ps ih =>
+    have hp := hg p (by simp)
+    have hsp := hs p (by simp)
+    unfold Piece.good at hp
+    simp only [hsp, Bool.false_eq_true, if_false] at hp
+    have hr := hp.1 pre (flat ps ++ post)
+    have e1 : pre ++ flat (p :: ps) ++ post = pre ++ p.tb ++ (flat ps ++ post) := by simp [flat_cons, List.append_assoc]
+    have e2 : pre ++ flat (p :: ps) ++ post = (pre ++ p.tb) ++ flat ps ++ post := by simp [flat_cons, List.append_assoc]
+    simp only [dts, List.map_cons]
+    rw [pass2_cons_fixed _ after p.d _ pre.length _ p.out hsp (e1 ▸ hr)]
+    have := ih (fun q hq => hg q (by simp [hq])) (fun q hq => hs q (by simp [hq])) (pre ++ p.tb)
+    rw [e2]
+    simp only [List.length_append] at this
+    simp only [dts] at this
+    rw [this, outs_cons, flat_cons]
+    simp [Nat.add_assoc]
+
+theorem pass1_true_inv (ps : List Piece) (hg : ∀ p ∈ ps, p.good) (a : Int) (st : Bool) (a' : Int)
+    (h : pass1 (dts ps) true a = .ok (st, a')) :
+    st = true ∧ (∀ p ∈ ps, p.d.stretchy = false) ∧ a' = a + ((flat ps).length : Int) := by
+  induction ps generalizing a with
+  | nil => simp [dts, pass1] at h; simp [flat, h.1, h.2]
+  | cons p ps ih =>
+    simp only [dts, List.map_cons] at h
+    rw [pass1.eq_def] at h
+    simp only at h
+    cases hsp : p.d.stretchy with
+    | true => simp [hsp] at h
+    | false =>
+      simp only [hsp, Bool.false_eq_true, if_false, if_true] at h
+      cases hv : p.d.kind.variable with
+      | true => simp [hv] at h
+      | false =>
+        simp only [hv, Bool.false_eq_true, if_false] at h
+        have hp := hg p (by simp)
+        unfold Piece.good at hp
+        simp only [hsp, Bool.false_eq_true, if_false] at hp
+        have hbl := hp.2 hv
+        rw [hbl] at h
+        obtain ⟨h1, h2, h3⟩ := ih (fun q hq => hg q (by simp [hq])) _ h
+        refine ⟨h1, ?_, ?_⟩
+        · intro q hq
+          rcases List.mem_cons.mp hq with rfl | hq
+          · exact hsp
+          · exact h2 q hq
+        · rw [h3, flat_cons]; simp; ring
+
+theorem pass2_cons_stretchy (b : Bits) (after : Int) (d d' : DT) (ds : List DT) (pos pos' L : Nat) (v : Option Val)
+    (hs : d.stretchy = true) (hbl : max ((b.length : Int) - pos - after) 0 = (L : Int))
+    (hrem : L % d.kind.mult = 0)
+    (hd' : getDtypeK d.kind (some ((L / d.kind.mult : Nat) : Int)) = .ok d')
+    (hr : readDT b d' pos = .ok (v, pos')) :
+    pass2 b after (d :: ds) pos =
+      match pass2 b after ds pos' with
+      | .error e => .error e
+      | .ok (vs, p) => .ok (consOpt v vs, p) := by
+  rw [pass2.eq_def]
+  have e1 : (L : Int) % (d.kind.mult : Int) = 0 := by
+    rw [← Int.natCast_mod, hrem]; rfl
+  have e2 : (L : Int) / (d.kind.mult : Int) = ((L / d.kind.mult : Nat) : Int) := (Int.natCast_div _ _).symm
+  simp only [hs, if_true, hbl, e1, e2, ne_eq, not_true_eq_false, if_false, hd', hr]
+  cases pass2 b after ds pos' with
+  | error e => rfl
+  | ok r => cases v <;> rfl
+
+theorem pass2_main (ps : List Piece) (hg : ∀ p ∈ ps, p.good) (a a' : Int) (st : Bool)
+    (h1 : pass1 (dts ps) false a = .ok (st, a')) (pre : Bits) :
+    pass2 (pre ++ flat ps) (a' - a) (dts ps) pre.length = .ok (outs ps, pre.length + (flat ps).length) := by
+  induction ps generalizing pre with
+  | nil => simp [flat, outs, dts, pass2]
+  | cons p ps ih =>
+    have hp := hg p (by simp)
+    have hgr : ∀ q ∈ ps, q.good := fun q hq => hg q (by simp [hq])
+    simp only [dts, List.map_cons] at h1
+    rw [pass1.eq_def] at h1
+    simp only at h1
+    cases hsp : p.d.stretchy with
+    | true =>
+      simp only [hsp, if_true, Bool.false_eq_true, if_false] at h1
+      obtain ⟨-, hns, ha'⟩ := pass1_true_inv ps hgr a st a' h1
+      unfold Piece.good at hp
+      simp only [hsp, if_true] at hp
+      obtain ⟨hrem, d', hd', hr⟩ := hp
+      have eB : pre ++ flat (p :: ps) = pre ++ p.tb ++ flat ps := by simp [flat_cons, List.append_assoc]
+      have hbl : max (((pre ++ flat (p :: ps)).length : Int) - (pre.length : Nat) - (a' - a)) 0 = (p.tb.length : Int) := by
+        rw [ha', flat_cons]
+        simp only [List.length_append, Nat.cast_add]
+        have : (0 : Int) ≤ (p.tb.length : Int) := Int.natCast_nonneg _
+        rw [max_eq_left] <;> linarith
+      simp only [dts, List.map_cons]
+      rw [pass2_cons_stretchy _ _ p.d d' _ pre.length (pre.length + p.tb.length) p.tb.length p.out hsp hbl hrem hd'
+        (eB ▸ hr pre (flat ps))]
+      have := pass2_fixed ps hgr hns (pre ++ p.tb) [] (a' - a)
+      simp only [List.append_nil, List.length_append, dts] at this
+      rw [eB, this, outs_cons, flat_cons]
+      simp [Nat.add_assoc]
+    | false =>
+      simp only [hsp, Bool.false_eq_true, if_false] at h1
+      unfold Piece.good at hp
+      simp only [hsp, Bool.false_eq_true, if_false] at hp
+      have eB : pre ++ flat (p :: ps) = pre ++ p.tb ++ flat ps := by simp [flat_cons, List.append_assoc]
+      simp only [dts, List.map_cons]
+      rw [pass2_cons_fixed _ _ p.d _ pre.length _ p.out hsp (eB ▸ hp.1 pre (flat ps))]
+      have := ih hgr h1 (pre ++ p.tb)
+      simp only [List.length_append, dts] at this
+      rw [eB, this, outs_cons, flat_cons]
+      simp [Nat.add_assoc]
+
+theorem pieces_roundtrip (ps : List Piece) (hg : ∀ p ∈ ps, p.good) (st : Bool) (after : Int)
+    (h1 : pass1 (dts ps) false 0 = .ok (st, after)) :
+    readDtypeList (flat ps) (dts ps) 0 = .ok (outs ps, (flat ps).length) := by
+  unfold readDtypeList
+  rw [h1]
+  have := pass2_main ps hg 0 after st h1 []
+  simpa using this
+
 
 end BM.C05
